@@ -77,3 +77,128 @@ NAMES = ["conv_nd_1d", "conv_nd_2d", "conv_nd_pad_dil", "max_pool", "max_pool_2d
          "logsoftmax", "elu", "glu", "hard_tanh", "leaky_relu", "relu", "selu", "sigmoid", "soft_sign", "tanh", "softmax_crossentropy",
          "negative_log_likelihood", "negative_log_likelihood_w", "multiclass_hinge", "margin_ranking_loss", "focal_loss", "softmax_focal_loss",
          "gru", "gru_s0"]
+
+
+# ------------------------------------------------------------------ complex-safe functional models (for C02)
+def _relu(x):
+    return np.where(np.real(x) > 0, x, 0.0 * x)
+
+
+def _sig(x):
+    return 1.0 / (1.0 + np.exp(-x))
+
+
+def _softmax(x, axis=-1):
+    e = np.exp(x)
+    return e / np.sum(e, axis=axis, keepdims=True)
+
+
+def _logsoftmax(x, axis=-1):
+    return x - np.log(np.sum(np.exp(x), axis=axis, keepdims=True))
+
+
+def _conv(x, w, stride, padding, dilation):
+    k = x.ndim - 2
+    s = (stride,) * k if isinstance(stride, int) else tuple(stride)
+    p = (padding,) * k if isinstance(padding, int) else tuple(padding)
+    d = (dilation,) * k if isinstance(dilation, int) else tuple(dilation)
+    xp = np.pad(x, ((0, 0), (0, 0)) + tuple((pi, pi) for pi in p))
+    grid = tuple((xp.shape[2 + i] - ((w.shape[2 + i] - 1) * d[i] + 1)) // s[i] + 1 for i in range(k))
+    out = np.zeros((x.shape[0], w.shape[0]) + grid, dtype=np.result_type(x, w))
+    for g in np.ndindex(*grid):
+        for wi in np.ndindex(*w.shape[2:]):
+            idx = tuple(g[i] * s[i] + wi[i] * d[i] for i in range(k))
+            out[(slice(None), slice(None)) + g] += np.einsum("nc,fc->nf", xp[(slice(None), slice(None)) + idx], w[(slice(None), slice(None)) + wi])
+    return out
+
+
+def _maxpool(x, pool, stride):
+    k = len(pool)
+    s = (stride,) * k if isinstance(stride, int) else tuple(stride)
+    lead = x.shape[: x.ndim - k]
+    grid = tuple((x.shape[x.ndim - k + i] - pool[i]) // s[i] + 1 for i in range(k))
+    out = np.zeros(lead + grid, dtype=x.dtype)
+    for n in np.ndindex(*lead):
+        for g in np.ndindex(*grid):
+            cands = [x[n + tuple(g[i] * s[i] + wi[i] for i in range(k))] for wi in np.ndindex(*pool)]
+            out[n + g] = cands[int(np.argmax([c.real for c in cands]))]
+    return out
+
+
+def _batchnorm(x, gamma=None, beta=None, eps=1e-5):
+    ax = tuple(i for i in range(x.ndim) if i != 1)
+    shp = [1] * x.ndim
+    shp[1] = x.shape[1]
+    mu = np.mean(x, axis=ax, keepdims=True)
+    var = np.mean((x - mu) ** 2, axis=ax, keepdims=True)
+    y = (x - mu) / np.sqrt(var + eps)
+    if gamma is not None:
+        y = y * gamma.reshape(shp)
+    if beta is not None:
+        y = y + beta.reshape(shp)
+    return y
+
+
+def _gru(X, Uz, Wz, bz, Ur, Wr, br, Uh, Wh, bh, s0=None):
+    T, N, C = X.shape
+    D = bz.shape[0]
+    dt = np.result_type(X, Uz, Wz, bz, Ur, Wr, br, Uh, Wh, bh)
+    S = [np.zeros((N, D), dtype=dt) if s0 is None else np.asarray(s0, dtype=dt)]
+    for t in range(T):
+        prev = S[-1]
+        z = _sig(X[t] @ Uz + prev @ Wz + bz)
+        r = _sig(X[t] @ Ur + prev @ Wr + br)
+        h = np.tanh(X[t] @ Uh + (r * prev) @ Wh + bh)
+        S.append((1 - z) * h + z * prev)
+    return np.stack(S)
+
+
+def shadows():
+    y2 = np.array([2, 0])
+    rows = np.arange(2)
+
+    def focal(p, alpha, gamma):
+        pc = p[rows, y2]
+        return -alpha * (1 - pc) ** gamma * np.log(pc)
+
+    def hinge(x, h=1.0):
+        m = x - x[rows, y2][:, None] + h
+        m = np.where(np.real(m) > 0, m, 0.0 * m)
+        m[rows, y2] = 0.0
+        return np.sum(m) / x.shape[0]
+
+    def mrl(x1, x2):
+        y = np.array([1, -1, 1])
+        m = 0.5 - y * (x1 - x2)
+        return np.mean(np.where(np.real(m) > 0, m, 0.0 * m))
+
+    return {
+        "conv_nd_1d": lambda x, w: _conv(x, w, 1, 0, 1),
+        "conv_nd_2d": lambda x, w: _conv(x, w, 1, 0, 1),
+        "conv_nd_pad_dil": lambda x, w: _conv(x, w, 2, 1, 2),
+        "max_pool": lambda x: _maxpool(x, (2,), 2),
+        "max_pool_2d": lambda x: _maxpool(x, (2, 2), (2, 2)),
+        "batchnorm": lambda x, gamma, beta: _batchnorm(x, gamma, beta),
+        "batchnorm_plain": lambda x: _batchnorm(x),
+        "softmax": lambda x: _softmax(x),
+        "softmax_axis0": lambda x: _softmax(x, 0),
+        "logsoftmax": lambda x: _logsoftmax(x),
+        "elu": lambda x: np.where(np.real(x) > 0, x, 0.5 * (np.exp(x) - 1)),
+        "glu": lambda x: x[..., :2] * _sig(x[..., 2:]),
+        "hard_tanh": lambda x: np.where(np.real(x) < -1, -1.0 + 0 * x, np.where(np.real(x) > 1, 1.0 + 0 * x, x)),
+        "leaky_relu": lambda x: np.where(np.real(x) > 0, x, 0.125 * x),
+        "relu": _relu,
+        "selu": lambda x: 1.0507009873554804934193349852946 * np.where(np.real(x) > 0, x, 1.6732632423543772848170429916717 * (np.exp(x) - 1)),
+        "sigmoid": _sig,
+        "soft_sign": lambda x: x / (1 + np.where(np.real(x) < 0, -x, x)),
+        "tanh": np.tanh,
+        "softmax_crossentropy": lambda x: -np.sum(_logsoftmax(x)[rows, y2]) / 2,
+        "negative_log_likelihood": lambda x: -np.sum(x[rows, y2]) / 2,
+        "negative_log_likelihood_w": None,  # weights are documented as constants
+        "multiclass_hinge": hinge,
+        "margin_ranking_loss": mrl,
+        "focal_loss": lambda p: focal(p, 0.75, 2.0),
+        "softmax_focal_loss": lambda x: focal(_softmax(x), 0.75, 2.0),
+        "gru": _gru,
+        "gru_s0": lambda *a: _gru(*a, s0=vals((1, 2), 11, "float64")),
+    }
